@@ -102,7 +102,7 @@ theorem rootLoop_along_chain {v0 : Nat} {r a : Root} (c : Chain cfg srv r a) :
     cases fuel with
     | zero => omega
     | succ n =>
-      obtain ⟨f', st', g1, g2, g3⟩ := ih n (st.req (.rootV (x.version + 1))) (by omega) h2
+      obtain ⟨f', st', g1, g2, g3⟩ := ih n (st.req (.rootV (x.version + 1)) cfg.limits.maxRootSize) (by omega) h2
       refine ⟨f', st', g1, g2, ?_⟩
       rw [← g3]
       have hx : x.version < v0 + cfg.limits.maxRootUpdates := by omega
